@@ -15,5 +15,9 @@ RECURSIVE SigsSum(_, _, _)
 SigsSum(sigs, i, h) == IF i > Len(sigs) THEN h
                        ELSE SigsSum(sigs, i + 1, (ParamsSum(sigs[i].params, 1, h * 17 + sigs[i].ret) * 7 + Len(sigs[i].params)) % 10007)
 
+\* vacuity control without TLC -coverage (its cost model cannot digest the vocabulary table): every state of the
+\* running machine prints the branch of the real loop it is about to take; the harness counts them
+EmitKinds == stage = "run" => PrintT(<<"KIND", nk>>)
+
 EmitDone == stage = "done" => (SigsSum(case.sigs, 1, 1) % EmitOneIn = 0 => PrintT(ToJson(case)))
 =============================================================================
